@@ -1,9 +1,10 @@
 /- Line-protocol driver: one request per line on stdin, one response per line on stdout.
    Imports only Mathlib-free model files. -/
 import Iodata.Drv.Conv
+import Iodata.Drv.Cascade
 
 def handlers : List (List String → Option String) :=
-  [Iodata.Drv.Conv.handle]
+  [Iodata.Drv.Conv.handle, Iodata.Drv.Cascade.handle]
 
 def respond (line : String) : String :=
   let ws := (line.splitOn " ").filter (· ≠ "")
